@@ -29,6 +29,7 @@ func checkC06(c *Ctx, r *Report) {
 	ttlNoWrap(c, r, "C06.R3.ttl-no-wrap")
 	endingConsumesLine(c, r, "C06.R6.ending-consumes-line")
 	c06SlurpEOF(c, r, "C06.R6.slurp-eof")
+	c06GenerateInherits(c, r, "C06.R4.generate-inherits")
 }
 
 // mustPassExit is mustPass restricted to the exits accepted by isExit.
